@@ -182,3 +182,4 @@ contract(CSX + "._clean_empty_shapes", params={}, self_type=ClassShexerT,
     loops={0: {"invariant": [DETECTED.format(s="shapes_to_remove"), "self._remove_empty_shapes"], "decreases": "len(%s)" % SHL_}},
     props=["C05", "C02", "C04"],
     note="empty-shape removal TERMINATES (every round removes at least one shape: decreases len(shapes)) and ends with no shape without statements")
+
